@@ -90,7 +90,9 @@ func symNameLabels(tag string, labels, llen int) refName {
 func symRR(tag string, labels, llen, rdlen int) (ResourceRecord, refName) {
 	n := symNameLabels(tag+"n", labels, llen)
 	rr := ResourceRecord{Name: refJoin(n), Type: vU16(tag + "t"), Class: vU16(tag + "c"), TTL: vU32(tag + "ttl"), RData: vBytes(tag+"rd", rdlen)}
-	rr.RDLength = uint16(rdlen)
+	// the length field is derived data: a record built as a literal, or edited after decoding, carries an arbitrary stale
+	// value, and the encoder describes the RDATA the record holds
+	rr.RDLength = vU16(tag + "stale-rdlength")
 	return rr, n
 }
 
@@ -109,7 +111,7 @@ func rrSame(a *ResourceRecord, b *ResourceRecord, id string) {
 	vCheck(sameName(a.Name, b.Name), id+"/name")
 	vCheck(a.Type == b.Type && a.Class == b.Class, id+"/type-class")
 	vCheck(a.TTL == b.TTL, id+"/ttl")
-	vCheck(a.RDLength == b.RDLength, id+"/rdlength")
+	vCheck(int(a.RDLength) == len(b.RData), id+"/rdlength")
 	vCheck(vBytesEq(a.RData, b.RData), id+"/rdata")
 }
 
@@ -149,6 +151,15 @@ func H_C09_roundtrip() {
 	m.QDCount, m.ANCount, m.NSCount, m.ARCount = vU16("prev.qd"), vU16("prev.an"), vU16("prev.ns"), vU16("prev.ar")
 	raw, err := m.Encode()
 	vCheck(err == nil, "roundtrip/encode-ok")
+	// a result already returned is the caller's: encoding another message later does not disturb it
+	if err == nil {
+		keep := append([]byte{}, raw...)
+		later := &Message{}
+		later.ID, later.Flags = vU16("later.id"), vU16("later.flags")
+		later.Questions = append(later.Questions, Question{Name: "later.local", Type: 1, Class: 1})
+		_, _ = later.Encode()
+		vCheck(vBytesEq(raw, keep), "roundtrip/encode-result-not-disturbed-by-a-later-encode")
+	}
 	rx := append([]byte{}, raw...)
 	d, err := DecodeMessage(rx)
 	vCheck(err == nil, "roundtrip/decode-ok")
